@@ -11,8 +11,8 @@ import (
 
 func init() {
 	register(&PropMeta{
-		ID:    "C08",
-		Level: "other",
+		ID:          "C08",
+		Level:       "other",
 		Explanation: "Decides the decision structure that runs after every hand: (R1) on every path of the continue handler that passes the closed/released tests the handler pauses exactly under the pause predicate, otherwise under the auto-open predicate sets up hand GameCount+1, and the only remaining path is the explicitly logged 'unhandled' one — no silent return; (R2) the pause predicate ≡ break ∨ alive < minimum, the auto-open predicate ≡ standby ∧ alive ≥ minimum, alive ≡ bankroll > 0 (truth tables by path enumeration); (R3) every non-error exit of the continue step returns the delay helper's result for a handler, and the delay helper runs the handler on the not-cancelled edge; (R4) the open-game ready callback either opens a hand or reports an error on every path, except a drop conditioned on the participant count, which is tolerated only if the participants handed to set-up are, by provenance, the set whose size the auto-open predicate tested. NOT decided: liveness, retries, timing.",
 		Rules: map[string]string{
 			"R1": "continue-handler structure: pause iff pause predicate; else set up GameCount+1 under the auto-open predicate; no silent path",
